@@ -68,7 +68,14 @@ def programs(tier):
         entry = "src/main.incn" if "src/main.incn" in files else "main.incn"
         if entry in files:
             P[f"example_{name}"] = dict(files, __entry__=entry)
-    units = [u for u in sem.corpus("quick") if not u.panics][:60]
+    # every project-generation case of C15 (feature-trigger subsets, rust:: import sets and forms)
+    from . import c15
+
+    for k, case in enumerate(c15.cases(tier)):
+        if case.get("expect_refused") or case["name"] != "prog":
+            continue
+        P[f"c15_{k}_" + "+".join(case["triggers"])[:40] + "_" + "+".join(c for c, _ in case["imports"])[:30]] = {"main.incn": c15.source(case), "__light__": "1"}
+    units = [u for u in sem.corpus("quick") if not u.panics and u.tags[:1] != ("seq",)][:60]
     inc, _ = sem.pack(units)
     P["semantic_corpus_pack"] = {"main.incn": inc}
     return P
@@ -90,6 +97,7 @@ def run_cfg(args):
     pname, files, cfg, root = args
     seed, cwd_mode, env_mode = cfg
     entry = files.get("__entry__", "main.incn")
+    light = "__light__" in files
     proj = os.path.join(root, pname)
     env = {"PATH": FAKE + ":" + os.environ.get("PATH", ""), "HOME": os.environ.get("HOME", "/root"), "LD_PRELOAD": SHIM, "VERIF_HASH_SEED": str(seed), "LANG": "C.UTF-8", "RUST_LOG": "off"}
     for k in ("CARGO_HOME", "RUSTUP_HOME"):
@@ -120,9 +128,10 @@ def run_cfg(args):
                 fp = os.path.join(r, f)
                 if f.endswith((".rs", ".toml")):
                     obs["file:" + os.path.relpath(fp, outdir)] = open(fp, encoding="utf-8").read()
-    obs["check"] = cli("--check", path)
-    obs["emit-rust"] = cli("--emit-rust", path)
-    obs["fmt-diff"] = cli("fmt", "--diff", path)
+    if not light:
+        obs["check"] = cli("--check", path)
+        obs["emit-rust"] = cli("--emit-rust", path)
+        obs["fmt-diff"] = cli("fmt", "--diff", path)
     shutil.rmtree(outdir, ignore_errors=True)
     return pname, cfg, obs
 
@@ -136,13 +145,15 @@ def run(tier):
     P = programs(tier)
     for pname, files in P.items():
         for rel, text in files.items():
-            if rel == "__entry__":
+            if rel in ("__entry__", "__light__"):
                 continue
             p = os.path.join(root, pname, rel)
             os.makedirs(os.path.dirname(p), exist_ok=True)
             open(p, "w", encoding="utf-8").write(text)
     cfgs = configs(tier)
-    jobs = [(pname, files, cfg, root) for pname, files in P.items() for cfg in cfgs]
+    # the light (project-generation-only) programs run under 4 seeds (thorough: 16), the others under every configuration
+    light_cfgs = [c for c in cfgs if c[1:] == ("project-relative", "scrubbed")][: (16 if tier == "thorough" else 4)]
+    jobs = [(pname, files, cfg, root) for pname, files in P.items() for cfg in (light_cfgs if "__light__" in files else cfgs)]
     with ThreadPool(common.NCPU) as pool:
         res = pool.map(run_cfg, jobs)
     by_prog = {}
@@ -184,7 +195,7 @@ def run(tier):
     cov = {
         "evaluations": n_eval,
         "distinct_nontrivial": distinct,
-        "rule": f"{len(P)} programs (several rust:: imports, derives/traits/models, diagnostics with several missing fields / methods, 3-level nested multi-file project, private "
+        "rule": f"{len(P)} programs ({sum(1 for f in P.values() if '__light__' in f)} of them the C15 project-generation cases, compared on the generated files under 4 (thorough 16) hash seeds; the others: several rust:: imports, derives/traits/models, diagnostics with several missing fields / methods, 3-level nested multi-file project, private "
         f"import hint, unformatted source, consts and collections, the repository's multifile examples, a 60-unit pack of the semantic corpus) x {len(cfgs)} configurations "
         "(hash seed x cwd/relative-vs-absolute path x scrubbed/noisy environment); observables: build transcript, every generated .rs/.toml file, --check, --emit-rust, fmt --diff "
         "text; evaluations = (program, configuration, observable) triples compared; non-trivial = (program, observable) pairs identical across all configurations",
@@ -213,7 +224,7 @@ def replay(path):
     root = os.path.join(common.BUILD, "c12_replay")
     shutil.rmtree(root, ignore_errors=True)
     for rel, text in c["files"].items():
-        if rel == "__entry__":
+        if rel in ("__entry__", "__light__"):
             continue
         p = os.path.join(root, c["program"], rel)
         os.makedirs(os.path.dirname(p), exist_ok=True)
